@@ -80,6 +80,44 @@ P("C06", "comparison is a total order; operators, overloads and hashes agree wit
   exhaustive={"quick": "all ordered pairs of strings len<=2 over 14 bytes (211^2) x all prefix limits; ci triples over len<=1; buffers len<=2 per element type",
               "thorough": "all ordered pairs of strings len<=3 over 14 bytes (2955^2) x all prefix limits; ci triples over len<=2 (211^3); buffers len<=3 per element type"})
 
+P("C14", "hex and base64 encodings are standard and decode back to the original bytes", "codec",
+  level_text=("runtime monitoring: hex_encode/base64_encode run under ASan+UBSan and are compared with an RFC 4648 / lower-case-hex reference, then decoded back through the "
+              "allocating and the caller-buffer decoders (and upper/mixed-case hex); exhaustive over all 2^24 three-byte groups (batched), all 2^16 two-byte and 2^8 one-byte tails, "
+              "every length 0..70 with random content"),
+  technique="differential runtime monitoring against RFC 4648 reference + round-trip monitor under ASan+UBSan (exhaustive over 3-byte groups)",
+  rule=("a case is one byte array; the sweep batches 256 three-byte groups (two leading bytes fixed, every third byte) into one input so every group value occurs at first/middle/last position; "
+        "distinct counts distinct inputs (batches, single groups, random arrays); evaluations count library calls; no case is trivial except the 4 empty-input calls"),
+  exhaustive={"quick": "all 2^24 three-byte groups (batched), all 2^16 two-byte tails, all 2^8 one-byte tails",
+              "thorough": "the same plus every one of the 2^24 groups encoded alone (in-object result strings)"},
+  dbits={"quick": 22, "thorough": 26})
+
+P("C15", "decoders accept exactly the valid encodings and never overrun the output buffer", "codec",
+  level_text=("runtime monitoring: hex_decode/base64_decode (allocating, caller-buffer, null-output) run under ASan+UBSan and their accept/reject decision, returned length and bytes are "
+              "compared with the validity predicate and reference decoder of the statement; the output buffer is a heap block of exactly output_size bytes (red zone behind it) filled with a "
+              "canary so writes beyond output_size or beyond the returned length are observed; exhaustive over all 256^2 hex digit pairs, every byte value at every position of first/middle/last "
+              "base64 group, all 256^2 values of every position pair of the last group"),
+  technique="differential runtime monitoring against a reference validity predicate, exact-size output buffers + canary under ASan+UBSan",
+  rule=("a case is one input string (as hex or as base64), run through the allocating decoder, the null-output query and the caller-buffer decoder with output_size in {0, len-2, len-1, len/2, len, len+1, len+64, 2^32, 2^63-1, 2^63, SIZE_MAX}; "
+        "distinct by (codec, input bytes); evaluations count library calls; no case is trivial"),
+  assumptions=["on rejection (-1) partial writes inside the first output_size bytes are allowed; beyond output_size never",
+               "null-output query on a malformed length is expected to return -1"],
+  exhaustive={"quick": "hex: all 256^2 two-character strings; base64: 256 byte values x every position of 5 frames, 6 position pairs x 256^2 x 3 last-group shapes, all strings len<=9 over {A,=,*}",
+              "thorough": "the same with all strings len<=12 over {A,=,*}"},
+  dbits={"quick": 23, "thorough": 25})
+
+P("C12", "integer to text to integer is exact for every value, width and base", "ints",
+  level_text=("runtime monitoring: from_int/from_uint for every 16-bit value x 35 bases x both cases (exhaustive) and boundary-directed + random wider values run under ASan+UBSan "
+              "(UBSan is what sees the most-negative-value negation), are compared with a reference digit generator, with the digits of ST::format {}/{d}/{x}/{X}/{o}/{b} and string_stream <<, "
+              "and are parsed back through every wide-enough to_* member; the to_* parsers are compared on generated numerals/junk (whitespace, signs, prefixes, overflow, embedded NUL) "
+              "with the C library strto* call on the same bytes, including the ok/full_match flags"),
+  technique="differential runtime monitoring (reference digit generator, libc strto* as oracle, round-trip monitor) under ASan+UBSan",
+  rule=("formatting cases are (type, value) pairs evaluated in bases 2..36 x {lower,upper} (all bases for the exhaustive/boundary sets, a base subset for most random values); parsing cases are (text, base); "
+        "distinct by (type,value) resp. (text bytes, base); evaluations count library calls; nothing trivial"),
+  assumptions=["bases outside 0, 2..36 are not generated (strtol leaves the end pointer unspecified there)",
+               "the C library of this platform (glibc) is the oracle for the parsing direction, as the statement specifies"],
+  exhaustive={"quick": "all 65536 short and 65536 unsigned short values x bases 2..36 x 2 cases", "thorough": "all 65536 short and 65536 unsigned short values x bases 2..36 x 2 cases"},
+  dbits={"quick": 22, "thorough": 26})
+
 _PENDING = "check not registered yet in this revision of /verif (harness under construction; nothing is claimed)"
 for _p in ["C%02d" % i for i in range(1, 21)]:
     if _p not in PROPS:
